@@ -123,6 +123,7 @@ class _restartable(object):
 
 class rrulebase(object):
     def __init__(self, cache=False):
+        self._generation = 0
         if cache:
             self._cache = []
             self._cache_lock = _thread.allocate_lock()
@@ -149,6 +150,7 @@ class rrulebase(object):
             if self._cache_lock.locked():
                 self._cache_lock.release()
 
+        self._generation += 1
         self._len = None
 
     def _iter_cached(self):
@@ -161,14 +163,19 @@ class rrulebase(object):
             if i == len(cache):
                 acquire()
                 try:
-                    if self._cache_complete:
+                    # If the cache was invalidated after this iterator was
+                    # created, ``cache`` and ``gen`` are no longer the
+                    # object's: go on with them, but leave its flags alone.
+                    if self._cache_complete and cache is self._cache:
                         break
                     try:
                         for j in range(10):
                             cache.append(advance_iterator(gen))
                     except StopIteration:
-                        self._cache_gen = gen = None
-                        self._cache_complete = True
+                        gen = None
+                        if cache is self._cache:
+                            self._cache_gen = None
+                            self._cache_complete = True
                         break
                     except Exception:
                         # An error met while reading ahead is reported when
@@ -179,7 +186,7 @@ class rrulebase(object):
                     release()
             yield cache[i]
             i += 1
-        while i < self._len:
+        while i < len(cache):
             yield cache[i]
             i += 1
 
@@ -1433,6 +1440,7 @@ class rruleset(rrulebase):
         self._exdate.append(exdate)
 
     def _iter(self):
+        generation = self._generation
         rlist = []
         self._rdate.sort()
         self._genitem(rlist, iter(self._rdate))
@@ -1462,7 +1470,10 @@ class rruleset(rrulebase):
             advance_iterator(ritem)
             if rlist and rlist[0] is ritem:
                 heapq.heapreplace(rlist, ritem)
-        self._len = total
+        if generation == self._generation:
+            # not published by an iterator that was created before the
+            # latest rrule()/rdate()/exrule()/exdate() call
+            self._len = total
 
 
 
